@@ -205,6 +205,9 @@ class CSSStyleRule(cssrule.CSSRule):
             selectorList object
         """
         self._checkReadonly()
+        if self._selectorList is not None and self._selectorList is not selectorList:
+            # the replaced list is no part of this rule anymore
+            self._selectorList._parentRule = None
         selectorList._parentRule = self
         self._selectorList = selectorList
 
@@ -250,11 +253,15 @@ class CSSStyleRule(cssrule.CSSRule):
             current style object.
         """
         self._checkReadonly()
+        old = getattr(self, '_style', None)
         if isinstance(style, str):
             self._style = CSSStyleDeclaration(cssText=style, parentRule=self)
         else:
             style._parentRule = self
             self._style = style
+        if old is not None and old is not self._style:
+            # the replaced block is no part of this rule anymore
+            old._parentRule = None
 
     style = property(
         lambda self: self._style,
